@@ -19,9 +19,14 @@ void supla_esp_gpio_rs_apply_new_config(int channel_number, TChannelConfig_Rolle
 
 uint32 __real_system_get_time(void);
 static int zero_samples = 0;
+/* running clock (sys mode, CFG field 16): every read of the counter costs c08_read_cost_us of true time, as on the chip,
+ * where time passes while the firmware executes; with 0 the clock advances only in os_delay_us and between events
+ * (then two reads inside one call return the same value, which hides code that relies on their order) */
+static unsigned c08_read_cost_us = 0;
 uint32 __wrap_system_get_time(void) {
   uint32 t = __real_system_get_time();
   if (t == 0 && zero_samples++ < 4) vout("ZEROSAMPLE %llu", v_now);
+  v_now += c08_read_cost_us;
   return t;
 }
 
@@ -75,15 +80,16 @@ static void run_unit(int n, char **lines) {
 
 /* numeric CFG line (the model reads the same numbers):
  *   CFG <boot> <nshutters> <late_us> <mode 0=unit 1=sys> [sys only: <btn_type> <btn_flags> <motor_mode> <up_ms> <down_ms>
- *        <startup_ms> <rsflags> <time1_ms> <time2_ms> <sentdefault> <button shutter mask> <1 + relay index of the extra button>]
+ *        <startup_ms> <rsflags> <time1_ms> <time2_ms> <sentdefault> <button shutter mask> <1 + relay index of the extra button> <us charged per counter read>]
  * board: shutter i = relays 2i (up, gpio 1+2i) and 2i+1 (down, gpio 2+2i), both on channel i;
  *        sys with buttons: see a[14]/a[15] below (default: shutter i < 3 has input gpios 9+2i -> up relay, 10+2i -> down relay) */
 static void build_cfg(const char *line, char *out, size_t cap, int *mode) {
-  long long a[16]; memset(a, 0, sizeof a); int na = 0;
+  long long a[20]; memset(a, 0, sizeof a); int na = 0;
   const char *p = line + 3;
-  while (*p && *p != ':' && na < 16) { while (*p == ' ') p++; if (!*p || *p == ':') break; a[na++] = strtoll(p, (char **)&p, 0); }
+  while (*p && *p != ':' && na < 20) { while (*p == ' ') p++; if (!*p || *p == ':') break; a[na++] = strtoll(p, (char **)&p, 0); }
   unsigned boot = (unsigned)a[0]; int n = (int)a[1]; if (n < 0) n = 0; if (n > 4) n = 4;
   *mode = (int)a[3];
+  if (*mode == 1 && a[16] > 0 && a[16] <= 10) c08_read_cost_us = (unsigned)a[16];
   size_t o = 0;
   o += snprintf(out + o, cap - o, "CFG boot=%u", boot);
   if (a[2] > 0) o += snprintf(out + o, cap - o, " lateness=%lld", a[2]);
